@@ -1,6 +1,7 @@
 package main
 
 import (
+	"encoding/json"
 	"flag"
 	"fmt"
 	"go/types"
@@ -251,6 +252,49 @@ func main() {
 		cmdVerify(os.Args[2:])
 	case "check":
 		cmdCheck(os.Args[2:])
+	case "replay":
+		// re-run the stored counterexample of a violation file on /repo's current working tree
+		if len(os.Args) < 3 {
+			fmt.Fprintln(os.Stderr, "usage: gvc replay <replay file>")
+			os.Exit(2)
+		}
+		data, err := os.ReadFile(os.Args[2])
+		if err != nil {
+			fmt.Fprintln(os.Stderr, err)
+			os.Exit(2)
+		}
+		var payload map[string]any
+		if err := json.Unmarshal(data, &payload); err != nil {
+			fmt.Fprintln(os.Stderr, err)
+			os.Exit(2)
+		}
+		fmt.Printf("obligation: %v\nstatus: %v\n", payload["obligation"], payload["status"])
+		rp, _ := payload["replay"].(map[string]any)
+		src, _ := rp["go_test"].(string)
+		dir, _ := rp["package_dir"].(string)
+		if src == "" || dir == "" {
+			if in, ok := payload["input"]; ok {
+				fmt.Printf("failing input of the bounded stand-in: %v\nre-run the check to execute it: ./check %v quick\n", in, payload["property"])
+			} else {
+				fmt.Printf("no executable counterexample is stored for this violation (%v); the file carries the failed obligation and the solver output\n", rp["reason"])
+			}
+			os.Exit(1)
+		}
+		res, errText := runReplay(dir, src)
+		if res == nil {
+			fmt.Println("replay could not run:", errText)
+			os.Exit(2)
+		}
+		out, _ := json.MarshalIndent(res, "", " ")
+		fmt.Println(string(out))
+		panicked, _ := res["panic"].(string)
+		expectPanic, _ := rp["expect_panic"].(bool)
+		if (expectPanic && panicked != "") || (!expectPanic && panicked == "" && sameStrings(res["got"], res["want"]) && sameStrings(res["got_final"], res["want_final"])) {
+			fmt.Println("REPRODUCED: the real code behaves as the counterexample says")
+			os.Exit(1)
+		}
+		fmt.Println("not reproduced on the current tree")
+		os.Exit(0)
 	case "funcs":
 		pks, err := loadPackages(os.Args[2:3])
 		if err != nil {
